@@ -716,3 +716,58 @@ func VP_C11_trunc() {
 	}
 	vpReach("C11/trunc/done")
 }
+
+func init() {
+	vpHarnesses["VP_C11_truncpool"] = VP_C11_truncpool
+}
+
+// C11/truncpool: numbers with MANY digits (quotients, long fractions) become Go
+// integers by truncation toward zero - not by rounding - whatever their digit
+// count.  Every pool value is far enough from an integer that the float64
+// bridge of the conversion cannot carry it across one (see Outside).
+func VP_C11_truncpool() {
+	pool := []struct {
+		src  string
+		want int64
+	}{
+		{"20/3", 6}, {"0-20/3", -6}, {"1234567890123.756", 1234567890123}, {"123456789012345.5", 123456789012345}, {"1000/7", 142},
+		{"1234567.50000000000001", 1234567}, {"10/4", 2}, {"7/2", 3}, {"0-5/2", -2}, {"2/3", 0}, {"0-2/3", 0}, {"1e15/3", 333333333333333},
+		{"2e15/3", 666666666666666}, {"-6.5", -6}, {"6.5000000000000000000000001", 6}, {"-7.9999999999", -7}, {"0.5", 0}, {"-0.5", 0}, {"1.5", 1}, {"2.5", 2},
+		{"8.75000000000000000", 8}, {"0-100/6", -16}, {"99999.99999", 99999},
+	}
+	pi := vpChoice("x", len(pool))
+	which := vpChoice("fn", 4)
+	var got int64
+	calls := 0
+	data := map[string]interface{}{
+		"hi":  func(n int) (int, error) { calls++; got = int64(n); return 0, nil },
+		"hl":  func(n int64) (int, error) { calls++; got = n; return 0, nil },
+		"h32": func(n int32) (int, error) { calls++; got = int64(n); return 0, nil },
+		"hs":  func(ns []int64) (int, error) { calls++; got = ns[len(ns)-1]; return 0, nil },
+	}
+	name := []string{"hi", "hl", "h32", "hs"}[which]
+	if name == "h32" && (pool[pi].want > 1<<31-1 || pool[pi].want < -(1<<31)) {
+		vpReach("C11/truncpool/done")
+		return
+	}
+	text := name + "(" + pool[pi].src + ")"
+	if name == "hs" {
+		text = name + "([1, " + pool[pi].src + "])"
+	}
+	code, perr := ParseSourceCode([]byte(text))
+	vpAssert("C11/truncpool/parses", perr == nil)
+	if perr != nil {
+		return
+	}
+	r := NewRunner()
+	r.SetThis(data)
+	_, err := r.Resolve(context.Background(), code.Expression)
+	vpObserve("truncpool", pi, which, got)
+	vpAssert("C11/truncpool/no-error", err == nil)
+	vpAssert("C11/truncpool/called-once", calls == 1)
+	if err != nil || calls != 1 {
+		return
+	}
+	vpAssert("C11/truncpool/truncates-toward-zero", got == pool[pi].want)
+	vpReach("C11/truncpool/done")
+}
